@@ -215,6 +215,8 @@ def replay_prog(prog, choices):
     return p
 
 
+WINDOW_AFTER = {'PauseAndWait', 'Stop', 'WaitAndStop', 'Pause', 'WUF', 'Wait', 'Result', 'Close', 'Purge', 'BatchWait', 'BatchRead', 'TunePool',
+                'QClose', 'Drain', 'Restart', 'Resume'}
 RACE_FAMS = ['tune', 'bind2', 'distbind', 'basic', 'ctl', 'cancel', 'batch', 'handle', 'pool', 'multi', 'dist', 'adapter', 'life', 'barrier']
 
 
@@ -396,7 +398,7 @@ def check_property(pid, tier, seed):
         # ---- systematic windows: for every label a base execution visited, one more execution of the same program in which
         # any goroutine arriving at that label is held there until nothing else can run
         skip = {'call', 'ret', 'c.start', 'quiescent', 'notify.sent', 'notify.dropped', 'free.push', 'free.stop', 'sched'}
-        holds = []
+        holds, windows = [], []
         for e in eps:
             if e['prog']['family'].startswith('m1:') or e['end']['result'] != 'ok':
                 continue
@@ -406,6 +408,18 @@ def check_property(pid, tier, seed):
                 hp['id'] = '%sh%d' % (e['prog']['id'], li)
                 hp['sched'] = {'kind': 'hold', 'label': lab, 'nth': 0 if li % 4 else rng.choice([0, 1, 2]), 'seed': rng.randrange(1 << 30)}
                 holds.append(hp)
+            # "X has returned, then a goroutine that had passed its check acts": an internal goroutine is held at a label until
+            # a barrier-like client call has returned, then runs alone for a few steps
+            after = sorted(set(o['op'] for c in e['prog']['clients'] for o in c['ops']) & WINDOW_AFTER)
+            ilabels = sorted(set(x['ev'] for x in e['events'] if x['ev'] not in skip and not x['ev'].startswith('ad.')
+                                 and x.get('p', '')[:2] in ('di', 'pg', 're', 'ct')))
+            if after:
+                for li, lab in enumerate(ilabels):
+                    hp = json.loads(json.dumps(e['prog']))
+                    hp['id'] = '%sv%d' % (e['prog']['id'], li)
+                    hp['sched'] = {'kind': 'window', 'label': lab, 'nth': rng.choice([0, 0, 1, 2, 3]), 'after': after if rng.random() < 0.7 else [rng.choice(after)],
+                                   'burst': rng.choice([2, 5, 9, 14]), 'seed': rng.randrange(1 << 30)}
+                    windows.append(hp)
         cap = 1400 if tier == 'quick' else 24000
         if len(holds) > cap:
             # windows at rarely visited labels first (tune.popped, reap.*, stopall.removed, ...), the common ones fill the rest
@@ -418,6 +432,8 @@ def check_property(pid, tier, seed):
             rest = [hp for hp in holds if freq[hp['sched']['label']] > max(6, cap // 40)]
             rng.shuffle(rest)
             holds = (rare + rest)[:cap]
+        rng.shuffle(windows)
+        holds += windows[:cap // 2]
         heps, hcr = vlib.run_episodes(binary, holds, scratch, gomaxprocs=1, tag='h')
         cov['hold_variants'] = len(heps)
         eps += heps
